@@ -5,6 +5,7 @@ package c13
 import (
 	"context"
 	"fmt"
+	"net/http"
 	"sort"
 	"testing"
 	"testing/synctest"
@@ -25,12 +26,15 @@ import (
 func TestC13VirtualTime(t *testing.T) {
 	sub := lab.Sub("accounting-virtual-time", "rapid histories in virtual time against the real balancer with scripted backends: {request good/4xx/5xx/unreachable/abort-mid-body, request with an already cancelled client context, "+
 		"park a request in a backend in a drawn phase (before the response head / after the head and before any body byte / after body part k of n, k,n-k in 1..3), release it (good / 5xx resp. broken body), remove and re-register a backend (also while requests are parked in it), advance 300ms..3s (..11s when a handler timeout is configured) across 1 s unhealthy windows and the 1 s breaker timeout}; in two cases of five server.timeouts.handler is 2..10 s instead of a day, so parked requests are cut off by it once virtual time passes their deadline (before the head: answered by the proxy; after the head / mid-body: response aborted) and end as one completed request of the backend they were sent to; passive checks (threshold 1-2, window 1 s) / limiter / breaker on or off, 5 strategies, 1-3 backends; "+
-		"books A1-A4 checked after every event; non-trivial = a request was still parked when its backend was ejected or re-admitted, a parked request ran into the handler timeout, or a cancelled-context / aborted request occurred")
+		"in about two cases of five health_checks.active is on (Helios's own prober on its own ticker: interval 2/3/5/30 s, timeout 1-3 s, 4 health paths, unhealthy_timeout 0/1/3 s when passive checks are off; no limiter in these cases) and the health path of every backend answers in a drawn way {200, 404, 500, connection refused, nothing until the probe timeout}, changed by events of the history {health path of a backend answers differently from now on, a probe that is kept waiting is answered 200/500 before its timeout, advance across probe rounds / the probe timeout / the ejection window}: probes are no requests, so the same books must balance with them going on; "+
+		"books A1-A4 checked after every event; non-trivial = a request was still parked when its backend was ejected or re-admitted, a parked request ran into the handler timeout, a cancelled-context / aborted request occurred, or an active probe failed")
 	sub.NontrivialFloor(0.40)
 	sub.Floor("books-read-with-request-parked-after-head", 0.20)
 	sub.Floor("handler-timeout-before-head", 0.05)
 	sub.Floor("handler-timeout-after-head", 0.05)
-	lab.Assume("L1: scripted RoundTripper replaces http.Transport; ErrAbortHandler recovered by the harness as net/http's server would")
+	sub.Floor("active-checks", 0.25)
+	sub.Floor("active-probe-failed", 0.15)
+	lab.Assume("L1: scripted RoundTripper replaces http.Transport (and http.DefaultTransport, through which the active prober sends); ErrAbortHandler recovered by the harness as net/http's server would")
 	maxLen := lab.Scale(40, 80)
 	lab.Check(t, sub, 3000, 100000, func(rt *rapid.T) {
 		strategy := rapid.SampledFrom(lab.Strategies).Draw(rt, "strategy")
@@ -46,7 +50,14 @@ func TestC13VirtualTime(t *testing.T) {
 		if rapid.IntRange(0, 4).Draw(rt, "handler_timeout_on") < 2 {
 			handlerTO = time.Duration(rapid.IntRange(2, 10).Draw(rt, "handler_timeout_s")) * time.Second
 		}
+		// health_checks.active: off, or Helios's own prober running on its own ticker inside the bubble, with what
+		// the health path of every backend answers drawn per backend (and changed by events of the history)
+		ap := genActive(rt, nb)
+		if ap.On {
+			limiter = false // the limiter's janitor never ends: it cannot live inside the bubble, where the prober has to be built
+		}
 		cfg := lab.BaseConfig(strategy, lab.Ones(nb))
+		ap.configure(cfg, passive)
 		if handlerTO > 0 {
 			cfg.Server.Timeouts.Handler = int(handlerTO / time.Second)
 		}
@@ -62,21 +73,42 @@ func TestC13VirtualTime(t *testing.T) {
 		if err := cfg.Validate(); err != nil {
 			rt.Fatalf("harness: %v", err)
 		}
-		// the limiter owns a never-ending janitor: build the balancer outside the bubble (no active checks here)
-		lb, err := loadbalancer.NewLoadBalancer(cfg)
-		if err != nil {
-			rt.Fatalf("harness: %v", err)
-		}
-		defer lb.Stop()
+		// the limiter owns a never-ending janitor: a balancer without active checks is built outside the bubble;
+		// one with active checks is built inside it (its prober's ticker has to run on virtual time) and stopped there
 		fn := lab.NewFakeNet()
-		fn.Install(lb)
+		var lb *loadbalancer.LoadBalancer
+		build := func(rt *rapid.T) {
+			var err error
+			if lb, err = loadbalancer.NewLoadBalancer(cfg); err != nil {
+				rt.Fatalf("harness: %v", err)
+			}
+			fn.Install(lb)
+		}
+		if !ap.On {
+			build(rt)
+			defer lb.Stop()
+		}
 		var hist []string
 		var viol string
 		interesting := false
 		parkedAfterHead := false
 		timedOutBeforeHead, timedOutAfterHead := false, false
+		var pw *probeWorld
+		// probes leave through http.DefaultTransport (the prober uses a plain http.Client): scripted as well
+		if ap.On {
+			old := http.DefaultTransport
+			http.DefaultTransport = fn.ProbeTransport()
+			defer func() { http.DefaultTransport = old }()
+		}
 		rapid.SyncTest(rt, func(rt *rapid.T) {
 			defer func() { fn.ReleaseAll(); synctest.Wait() }()
+			if ap.On {
+				pw = newProbeWorld(fn, ap, nb)
+				build(rt)
+				defer lb.Stop() // runs before the release above: the prober ends inside the bubble
+				synctest.Wait() // the start-up probe round has been answered (or is parked until its timeout)
+				hist = append(hist, pw.startup())
+			}
 			sent, completed, limited := 0, 0, 0
 			done := map[string]int{}      // completed arrivals per host
 			parked := map[string]int{}    // requests parked in the currently registered instance, per host
@@ -150,7 +182,7 @@ func TestC13VirtualTime(t *testing.T) {
 						tot, gauge = bm.TotalRequests, bm.ActiveConnections
 					}
 					if int(tot) != done[host] {
-						return fmt.Sprintf("%s: A3 backend_metrics[%s].total_requests=%d but %d requests sent to it have completed", when, name, tot, done[host])
+						return fmt.Sprintf("%s: A3 backend_metrics[%s].total_requests=%d but %d requests sent to it have completed%s", when, name, tot, done[host], pw.note(host))
 					}
 					// /metrics keeps one gauge per backend NAME (requests still running in a removed instance of
 					// that name are in flight under that name); /v1/backends lists the registered instance
@@ -162,6 +194,16 @@ func TestC13VirtualTime(t *testing.T) {
 			}
 			behaviours := []lab.Behaviour{lab.Good, lab.Good, lab.Status4xx, lab.Status5xx, lab.Status5xx, lab.Unreachable, lab.AbortBody, lab.Interim5xx, lab.InterimGood}
 			for s := 0; s < steps && viol == ""; s++ {
+				if ap.On {
+					// an event of the probe dimension instead of one of the request dimension: what a backend's health
+					// path answers changes, or a probe that is being kept waiting gets its answer
+					if ev := pw.event(rt); ev != "" {
+						synctest.Wait()
+						hist = append(hist, ev)
+						viol = books(fmt.Sprintf("after event #%d", s))
+						continue
+					}
+				}
 				k := rapid.IntRange(0, 99).Draw(rt, "op")
 				client := fmt.Sprintf("10.2.0.%d:999", rapid.IntRange(1, 6).Draw(rt, "client"))
 				toDeadline := false
@@ -313,6 +355,10 @@ func TestC13VirtualTime(t *testing.T) {
 							}
 						}
 					}
+					if ap.On && rapid.IntRange(0, 2).Draw(rt, "probe_advance") == 0 {
+						// across the next probe round(s), and across a round plus the probe timeout and the ejection window
+						ds = ap.advances()
+					}
 					d := rapid.SampledFrom(ds).Draw(rt, "d")
 					if toDeadline {
 						left := time.Until(holds[0].due)
@@ -331,7 +377,10 @@ func TestC13VirtualTime(t *testing.T) {
 			}
 			_ = sort.Strings
 		})
-		labels := []string{strategy}
+		labels := append([]string{strategy}, pw.labels()...)
+		if pw.anyFailed() {
+			interesting = true // a probe failed: an event at a backend that is no request
+		}
 		if passive {
 			labels = append(labels, "passive")
 		}
@@ -353,9 +402,9 @@ func TestC13VirtualTime(t *testing.T) {
 		if timedOutAfterHead {
 			labels = append(labels, "handler-timeout-after-head")
 		}
-		sub.Case(map[string]any{"strategy": strategy, "backends": nb, "passive": passive, "threshold": threshold, "limiter": limiter, "breaker": breaker, "handler_timeout": handlerTO.String(), "history": hist}, interesting, labels...)
+		sub.Case(map[string]any{"strategy": strategy, "backends": nb, "passive": passive, "threshold": threshold, "limiter": limiter, "breaker": breaker, "handler_timeout": handlerTO.String(), "active_checks": ap, "history": hist}, interesting, labels...)
 		if viol != "" {
-			rt.Fatalf("strategy %s backends %d passive %v(threshold %d) limiter %v breaker %v handler-timeout %v history %v: %s", strategy, nb, passive, threshold, limiter, breaker, handlerTO, hist, viol)
+			rt.Fatalf("strategy %s backends %d passive %v(threshold %d) limiter %v breaker %v handler-timeout %v active checks %s history %v: %s", strategy, nb, passive, threshold, limiter, breaker, handlerTO, ap, hist, viol)
 		}
 	})
 }
